@@ -124,6 +124,13 @@ func (c *XAConn) ExecContext(ctx context.Context, query string, args []driver.Na
 // BeginTx like common transaction. but it just exec XA START
 func (c *XAConn) BeginTx(ctx context.Context, opts driver.TxOptions) (driver.Tx, error) {
 	if !tm.IsGlobalTx(ctx) {
+		// a local transaction. A dedicated connection is not reset between its uses and may still carry
+		// the context of an XA branch whose phase one is over: Conn.BeginTx would take the new
+		// transaction for an XA one and open no local transaction at all
+		if !c.xaActive && c.txCtx.TransactionMode == types.XAMode {
+			c.txCtx = types.NewTxCtx()
+			c.autoCommit = true
+		}
 		tx, err := c.Conn.BeginTx(ctx, opts)
 		return tx, err
 	}
